@@ -31,6 +31,13 @@ def conv17Op (toks : List String) : Option String :=
     match parseTimeZoneToNas (zoneText off) with
     | .ok tz => pure ("ok " ++ bytesToHex [encField (y % 100), encField mo, encField d, encField h, encField mi, encField s, tz])
     | _ => pure "panic"
+  | ["utc", y, mo, d, h, mi, s, off, _zone] => do
+    -- the same instant given in a named zone (the harness shares one location object per name); the offset is what counts
+    let y ← y.toNat?; let mo ← mo.toNat?; let d ← d.toNat?; let h ← h.toNat?; let mi ← mi.toNat?; let s ← s.toNat?
+    let off ← off.toInt?
+    match parseTimeZoneToNas (zoneText off) with
+    | .ok tz => pure ("ok " ++ bytesToHex [encField (y % 100), encField mo, encField d, encField h, encField mi, encField s, tz])
+    | _ => pure "panic"
   | ["nname", _, h] => do
     let b ← hexToBytes h
     let (ln, buf) := networkNameToNas b
